@@ -2,6 +2,8 @@ SPECIFICATION Spec
 CONSTANTS
   WorkerCpus <- A_Workers
   WorkerGroup <- A_Groups
+  WorkerLife <- A_Life
+  MaxTicks = 0
   Menu <- A_Menu
   OpenJobs <- A_Open
   Classes <- A_Classes
